@@ -3,6 +3,7 @@ from ..spec import run_specs
 from ..unsafe_audit import run_U
 from ..reloc import run_relocate_reader
 from ..witness import run_witnesses
+from ..wiring import run_F_lookup
 
 EXPLANATION = 'Unsafe audit of the shared-buffer reader (private fields, stores only in new/skip/truncate behind asserts, from_raw_parts lengths), delegation shape of RelocateReader, Reader trait parametricity premise, and compile-fail witnesses (EndianRcSlice !Send, sub-reader cannot outlive buffer, private range field). Observational equality of reader kinds is NOT decided.'
 
@@ -22,4 +23,5 @@ def run(rep, ctx):
     run_U(rep, g)
     run_relocate_reader(rep, g)
     run_reader_premise(rep, g)
+    run_F_lookup(rep, g)
     run_witnesses(rep, ['RcReaderIsNotSend', 'SubReaderCannotOutliveBuffer', 'RangeFieldIsPrivate', 'ReaderHasNoConstructor'])
